@@ -5,7 +5,7 @@ from lib.checkdef import default_replay_cmd, run_property
 def run(tier, seed):
     return run_property(
         "C17", tier, seed, level="other",
-        deductive=[("c17_tensor", None), ("c10_init", None)],
+        deductive=[("c10_astype", None), ("c17_tensor", None), ("c10_init", None)],
         bounded=[("api_bounded.py", ["--check", "C17"])],
         trusted=["NumPy (np.array / np.asarray copy rules) is the oracle of the bounded part"],
         assumptions=[
